@@ -368,6 +368,13 @@ func generate(r *hx.Rng) []cs {
 		}
 		for _, pt := range []string{"rs.remove.after", "rs.copy.after"} {
 			cases = append(cases, cs{id: next(), kind: "CR", f: []string{e, pt, "64", sd()}})
+			cases = append(cases, cs{id: next(), kind: "CRR", f: []string{e, pt, "0", sd()}})
+		}
+		// two remote sources with a snapshot of the same (term,index)
+		cases = append(cases, cs{id: next(), kind: "RS", f: []string{e, sd()}})
+		// checkpoint size classes: just below / above 1 MiB, a few MiB (the mem engine's dump file is read in pieces)
+		for _, tot := range []int{900 + r.Pick(100), 1030 + r.Pick(200), 2100 + r.Pick(2500)} {
+			cases = append(cases, cs{id: next(), kind: "MS", f: []string{e, fmt.Sprint(tot), fmt.Sprint(60 + r.Pick(200)), sd()}})
 		}
 		// a transfer whose copy command fails midway while the process lives on
 		cases = append(cases, cs{id: next(), kind: "FF", f: []string{e, fmt.Sprint(600 + r.Pick(1500)), sd(), []string{"efbig", "cutwal"}[r.Pick(2)]}})
@@ -376,6 +383,7 @@ func generate(r *hx.Rng) []cs {
 			cases = append(cases, cs{id: next(), kind: "CB", f: []string{e, fmt.Sprintf("t%d", r.Pick(30000)), "16000", sd()}})
 			cases = append(cases, cs{id: next(), kind: "CR", f: []string{e, fmt.Sprintf("t%d", r.Pick(8000)), "2000", sd()}})
 			cases = append(cases, cs{id: next(), kind: "CF", f: []string{e, fmt.Sprintf("t%d", r.Pick(8000)), "16000", sd()}})
+			cases = append(cases, cs{id: next(), kind: "CRR", f: []string{e, fmt.Sprintf("t%d", r.Pick(6000)), "0", sd()}})
 		}
 	}
 	if *junk > 0 {
@@ -505,6 +513,34 @@ func main() {
 	defer io.Close()
 	defer sk.Close()
 	for _, c := range cases {
+		runCase(c, co, io, sk, kn)
+	}
+}
+
+// runCase runs one case. A Go panic of the code under test that escapes the per-call guards ends
+// the case with the outcome "panic" (a verdict for the oracle), it does not end the harness.
+func runCase(c cs, co, io, sk, kn *hx.Out) {
+	defer func() {
+		if r := recover(); r != nil {
+			fmt.Fprintf(os.Stderr, "case %s (%s): panic: %v\n", c.id, c.kind, r)
+			id := c.id
+			if c.kind == "T" {
+				id = c.id + ".panic"
+			}
+			co.Printf("%s\t%s\t%s\n", id, c.kind, strings.Join(c.f, "\t"))
+			io.Printf("%s\tpanic\n", id)
+		}
+	}()
+	{
+		// the case being run, unbuffered: if the process dies in it, this is the failing input
+		cur := c.id + "\t" + c.kind + "\t" + strings.Join(c.f, "\t") + "\n"
+		if c.kind == "T" {
+			cur = fmt.Sprintf("%s\tTS\t%s\t%d\t%d\n", c.id, c.tr.eng, c.tr.keep[0], c.tr.keep[1])
+			for k, o := range c.tr.ops {
+				cur += fmt.Sprintf("%s.%d\tTX\t%s\n", c.id, k+1, o.skeleton())
+			}
+		}
+		ioutil.WriteFile(*outDir+"/current.tsv", []byte(cur), 0644)
 		if c.kind != "T" {
 			line := c.id + "\t" + c.kind + "\t" + strings.Join(c.f, "\t")
 			sk.Printf("%s\n", line)
@@ -537,7 +573,7 @@ func main() {
 			if err != nil {
 				io.Printf("%s\terr %v\n", c.id, err)
 				co.Printf("%s\tK\t0\n", c.id)
-				continue
+				return
 			}
 			co.Printf("%s\tK\t%d\n", c.id, at)
 			io.Printf("%s\t%d %d\n", c.id, at, got)
@@ -572,6 +608,22 @@ func main() {
 				mode = c.f[3]
 			}
 			io.Printf("%s\t%s\n", c.id, failedFetch(c.f[0], kb, sd, mode))
+		case "RS":
+			sd, _ := strconv.ParseInt(c.f[1], 10, 64)
+			co.Printf("%s\tRS\t%s\t%s\n", c.id, c.f[0], c.f[1])
+			io.Printf("%s\t%s\n", c.id, remoteSources(c.f[0], sd))
+		case "MS":
+			tot, _ := strconv.Atoi(c.f[1])
+			vk, _ := strconv.Atoi(c.f[2])
+			sd, _ := strconv.ParseInt(c.f[3], 10, 64)
+			co.Printf("%s\tMS\t%s\n", c.id, strings.Join(c.f, "\t"))
+			io.Printf("%s\t%s\n", c.id, guard(func() string { return sizeClass(c.f[0], tot, vk, sd) }))
+		case "CRR":
+			sd, _ := strconv.ParseInt(c.f[3], 10, 64)
+			out := crashRemoteRestore(c.f[0], c.f[1], sd)
+			co.Printf("%s\tCRR\t%s\n", c.id, strings.Join(c.f, "\t"))
+			io.Printf("%s\t%s\n", c.id, canonCrash("CRR", c.f[0], c.f[1], out))
+			fmt.Fprintf(os.Stderr, "CRR %s %s: %s\n", c.f[0], c.f[1], out)
 		case "CB", "CR", "CF":
 			// crash cases: <eng> <point | t<micros>> <fillKB> <seed>
 			kb, _ := strconv.Atoi(c.f[2])
@@ -677,7 +729,7 @@ func runTrace(id string, tr *trace, co, io, sk *hx.Out) {
 			res = s.copyCkTo(st[1-o.s], o.t, o.i)
 			co.Printf("%s\tTO\tY\t%d\t%x\t%x\n", lid, o.s, o.t, o.i)
 		case "V":
-			res = s.copyCkToRemote(st[1-o.s], o.t, o.i)
+			res = st[1-o.s].transferRemoteFrom(s, o.t, o.i)
 			co.Printf("%s\tTO\tV\t%d\t%x\t%x\n", lid, o.s, o.t, o.i)
 		case "M":
 			res = s.restoreRemote(o.t, o.i)
